@@ -94,7 +94,7 @@ def random_spec(rng):
             x = [float(v * rng.choice([-1.0, 1.0, -3.0])) for v in x]
     step = None
     if rng.random() < 0.3:
-        step = {'_kind': 'min', 'base_step': float(rng.choice([1e-2, 1e-3, 0.05])), 'step_ratio': float(rng.choice([2.0, 1.6, 4.0])), 'num_steps': int(rng.integers(6, 12))}
+        step = {'_kind': 'min', 'base_step': float(rng.choice([1e-2, 1e-3, 0.05])), 'step_ratio': float(rng.choice([2.0, 1.6, 4.0, 1.5, 1.75, 2.5, 2.25])), 'num_steps': int(rng.integers(6, 12))}     # (ratios that share an integer part with each other and with the defaults 2 and 1.6)
     return {'class': cls, 'fsrc': fsrc, 'kw': kw, 'x': x, 'step': step}
 
 
